@@ -4,12 +4,15 @@ import (
 	"fmt"
 	"math/rand/v2"
 	"net/http"
+	"regexp"
 	"runtime"
 	"strconv"
 	"sync"
 
 	"verifharness/internal/vh"
 )
+
+var digits = regexp.MustCompile(`[0-9]+`)
 
 var namedBehaviours = [][]op{
 	{},
@@ -185,14 +188,16 @@ func runStress(c stressCfg, res *vh.Result, seedStream uint64) (requests, policy
 				diverge++
 			}
 			if len(pr) > 0 {
-				res.Mismatch(fmt.Sprintf("LogMiddleware stress %s (VERIF_SEED=%d): request %d of client %d through foreign wrappers %v and LogMiddleware(s) %v, handler does %s",
-					c.name, vh.Seed(), st.spec.rid, s.id, st.up, st.route, opsKey(st.ops)), pr[0], map[string]any{"problems": pr})
+				// the key names the configuration, not the run: no seed, request id or client number
+				res.Mismatch(fmt.Sprintf("LogMiddleware stress %s: %s-form request through foreign wrappers %v and LogMiddleware(s) %v, handler does %s",
+					c.name, st.spec.form, st.up, st.route, opsKey(st.ops)), pr[0],
+					map[string]any{"problems": pr, "request": st.spec.rid, "client": s.id, "seed": vh.Seed()})
 			}
 		}
 	}
 	if c.tr != nil {
 		for _, b := range c.tr.takeBad() {
-			res.Mismatch("LogMiddleware stress "+c.name+": "+b, b, nil)
+			res.Mismatch("LogMiddleware stress "+c.name+": "+digits.ReplaceAllString(b, "N"), b, nil)
 		}
 	}
 	if e.unrouted > 0 {
@@ -261,7 +266,10 @@ func stress(args []string) error {
 		return err
 	}
 	// Phase C: the same middleware behind a real net/http server on the loopback interface.
-	lbN, skipped := runLoopback(res, max(2, clients/2), max(10, reqs/4))
+	lbN, skipped, err := runLoopback(res, max(2, clients/2), max(10, reqs/4))
+	if err != nil {
+		return err
+	}
 	total += lbN
 	return res.Close(map[string]any{"loopback_requests": lbN, "loopback_skipped": skipped, "requests": total, "distinct_nontrivial": distinct, "code_policy_differs": policy, "code_differs_from_client_status": diverge,
 		"trace_events": t.N, "traced_requests": n})
